@@ -32,4 +32,6 @@ CONSTANTS
   PlainIdentity = TRUE
   KeyByNumber = FALSE
   CryptProbeDirectOnly = FALSE
+  ParmRefLayouts = {}
+  InlinedAsIs = FALSE
 INVARIANTS Once Repeat Terminates NoPanic ErrorsOnlyUnsupported Shape Sharing IsoInv
